@@ -649,6 +649,19 @@ def r7_sibling_resolvers(chk, cls):
 
     def arm_value(f, arm):
         rets = [r for st in arm.body for r in ([st] if isinstance(st, ast.Return) else [x for x in walk_no_nested(st) if isinstance(x, ast.Return)]) if r.value is not None]
+        if not rets and len(arm.body) == 1 and isinstance(arm.body[0], ast.Assign) and len(arm.body[0].targets) == 1 and isinstance(arm.body[0].targets[0], ast.Name):
+            # the arm names what it found and the function returns after the dispatch (`found = ...` / `return self._atoms.index(found)`): the
+            # arm's value is that closing return with the arm's expression in place of the name
+            nm_ = arm.body[0].targets[0].id
+            tail = [st for st in f.node.body if isinstance(st, ast.Return) and st.value is not None]
+            if len(tail) == 1 and f.node.body[-1] is tail[0] and nm_ in names_in(tail[0].value):
+                import copy as _copy
+
+                class _Sub(ast.NodeTransformer):
+                    def visit_Name(self, n):
+                        return _copy.deepcopy(arm.body[0].value) if n.id == nm_ and isinstance(n.ctx, ast.Load) else n
+                val = _Sub().visit(_copy.deepcopy(tail[0].value))
+                return Env(f.node).expand(val, keep=set(f.params()), at=arm.body[0]), tail[0]
         if len(rets) != 1:
             return None, None
         return Env(f.node).expand(rets[0].value, keep=set(f.params()), at=rets[0]), rets[0]
